@@ -474,13 +474,17 @@ class SimpleForwardModel(ForwardModel):
         # Initialize star
         self._star.initialize(native_grid)
 
-        for contrib in full_contrib_list:
-            self.contribution_list = [contrib]
-            contrib.prepare(self, native_grid)
-            absorp, tau = self.path_integral(native_grid, False)
-            all_contrib_dict[contrib.name] = (absorp, tau, None)
+        try:
+            for contrib in full_contrib_list:
+                self.contribution_list = [contrib]
+                contrib.prepare(self, native_grid)
+                absorp, tau = self.path_integral(native_grid, False)
+                all_contrib_dict[contrib.name] = (absorp, tau, None)
+        finally:
+            # an evaluation that fails half-way must not leave the model
+            # with a single contribution
+            self.contribution_list = full_contrib_list
 
-        self.contribution_list = full_contrib_list
         return native_grid, all_contrib_dict
 
     def model_full_contrib(self, wngrid=None, cutoff_grid=True):
@@ -504,19 +508,23 @@ class SimpleForwardModel(ForwardModel):
         self.debug('NATIVE GRID %s', native_grid.shape)
 
         self.info('Modelling each contribution.....')
-        for contrib in full_contrib_list:
-            self.contribution_list = [contrib]
-            contrib_name = contrib.name
-            contrib_res_list = []
+        try:
+            for contrib in full_contrib_list:
+                self.contribution_list = [contrib]
+                contrib_name = contrib.name
+                contrib_res_list = []
 
-            for name, __ in contrib.prepare_each(self, native_grid):
-                self.info('\t%s---%s contribtuion', contrib_name, name)
-                absorp, tau = self.path_integral(native_grid, False)
-                contrib_res_list.append((name, absorp, tau, None))
+                for name, __ in contrib.prepare_each(self, native_grid):
+                    self.info('\t%s---%s contribtuion', contrib_name, name)
+                    absorp, tau = self.path_integral(native_grid, False)
+                    contrib_res_list.append((name, absorp, tau, None))
 
-            result_dict[contrib_name] = contrib_res_list
+                result_dict[contrib_name] = contrib_res_list
+        finally:
+            # an evaluation that fails half-way must not leave the model
+            # with a single contribution
+            self.contribution_list = full_contrib_list
 
-        self.contribution_list = full_contrib_list
         return native_grid, result_dict
 
     def compute_error(self, samples, wngrid=None, binner=None):
